@@ -10,11 +10,22 @@ import (
 	"strconv"
 	"strings"
 	"time"
+
+	"github.com/sheerbytes/sheerbytes/internal/verifhook"
 )
 
 // Line-protocol driver for the unexported pure pieces of thruserv (overlaid at build time from /verif;
 // entered only when THRUSERV_VERIF=1, otherwise the binary is the ordinary server).
 func init() {
+	// THRUSERV_VERIF_DELAY_MS=<n>: every "serv.*" hook point sleeps n ms, which widens the window between a
+	// limit test and the action it guards (the server otherwise runs normally).
+	if d, err := strconv.Atoi(os.Getenv("THRUSERV_VERIF_DELAY_MS")); err == nil && d > 0 {
+		verifhook.Set(func(name string, args []uint64, s string) {
+			if strings.HasPrefix(name, "serv.") {
+				time.Sleep(time.Duration(d) * time.Millisecond)
+			}
+		})
+	}
 	if os.Getenv("THRUSERV_VERIF") != "1" {
 		return
 	}
